@@ -48,7 +48,7 @@ def run(ctx):
                               on_record=on_record)
     # directed stratum: literal arguments flowing down chains of keeps through run-time expressions
     recs += hist.run_histories(ctx, res, 100 if thorough else 20, 6, store_kinds=("memory",), on_record=on_record, allow="chain",
-                               edit_kinds=["const_arg", "const_arg", "var", "body", "revert", "none"])
+                               edit_kinds=["const_arg", "const_arg", "var", "body", "revert", "none", "multiline", "rt_arg", "rt_arg"])
     if res.disagreements and not res.violations:
         # the model no longer describes the code: search harder for a concrete failing input on the real code
         res.notes.append("correspondence broken: extended failing-input search (x6 histories, longer)")
